@@ -449,8 +449,13 @@ func evalPrepared(c *evalCase, p *prepared) (outcome, string, error) {
 	}
 	startCur := p.loc.ToCur[ctxNode]
 	viewed := len(c.Text)%7 == 3 && len(c.Funcs) == 0 && len(p.doc.All) <= 60
+	for _, b := range c.Vars {
+		if b.T == "nodes" && len(b.Nodes) > 0 {
+			viewed = false // node-set variables hold the store's cursors: one document, one kind of cursor
+		}
+	}
 	if viewed {
-		// through a user-written Cursor (fresh objects per call / an uncomparable value type)
+		// through a user-written Cursor (fresh objects per call / an uncomparable value type / huge positions)
 		startCur = viewOf(startCur, len(c.Text)/7)
 	}
 	impl, implErr := safeExec(startCur, g, set...)
